@@ -587,7 +587,11 @@ fn main() {
     // property itself (a failure is a concrete failing input and is reported as such)
     {
         // regression corpus of D34 / D35 (fixed in /repo): runs first on every run
-        let probes: [(&str, &str, Result<&str, &str>); 7] = [
+        let probes: [(&str, &str, Result<&str, &str>); 10] = [
+            // D88 (3cc222c): function values of the array intrinsics at element types int AND void in one program
+            ("D88", "let xs = [10, 20, 30]\nlet st = array_set\nst(xs, 0, -1)\nlet vs: array<void> = [nil, nil]\nlet sv = array_set\nsv(vs, 1, nil)\nlet g = array_get\nlet gv = array_get\nprint(g(xs, 2))\nprint(gv(vs, 0))\nlet p = array_push\nlet pv = array_push\np(xs, 7)\npv(vs, nil)\nprint(xs.len())\nprint(vs.len())\nprint(xs[0])\n", Ok("30nil43-1")),
+            ("D88", "let vs: array<void> = [nil]\nlet xs = [1, 2]\nlet gv = array_get\nlet g = array_get\nprint(gv(vs, 0))\nprint(g(xs, 5))\n", Err("oob")),
+            ("D88", "let xs = [1, 2]\nlet vs: array<void> = [nil]\nlet q = array_pop\nlet qv = array_pop\nprint(q(xs))\nprint(qv(vs))\nprint(qv(vs))\n", Err("oob")),
             ("D34", "let a: array<void> = [nil, nil, nil]\nvar n = 0\nfor x in a {\n  n = n + 1\n}\nprint(n)\n", Ok("3")),
             ("D34", "let a: array<void> = [nil]\nfor i in 2 {\n  a[0]\n}\nprint(\"done\")\n", Ok("done")),
             ("D34", "let a: array<void> = [nil, nil]\nprint(a.contains(nil))\n", Ok("true")),
@@ -606,7 +610,7 @@ fn main() {
             ctx.count(if ok { "void-probe:as-the-list-model" } else { "void-probe:fails" });
             if !ok {
                 still += 1;
-                ctx.spec_fail(format!("{id} (array<void>): `{}`: implementation {} out={:?}, list model: {}", src.trim_end().replace('\n', "; "), r.outcome.tag(), r.out,
+                ctx.spec_fail(format!("{id} (regression probe): `{}`: implementation {} out={:?}, list model: {}", src.trim_end().replace('\n', "; "), r.outcome.tag(), r.out,
                     match want { Ok(o) => format!("prints {o}"), Err(k) => format!("runtime error {k}") }));
             }
         }
@@ -656,5 +660,73 @@ fn main() {
         }
         ctx.case(req, imp);
     }
+    // array literals longer than the 65535 elements one ConstructArray can count (the compiler constructs the
+    // first 65535 and pushes the rest; arrays of void push dummies): len, elements around the seam, push/pop, oob
+    {
+        let elem_src = |ty: &str, i: usize| -> String {
+            match ty {
+                "int" => (i % 7).to_string(),
+                "bool" => (i % 2 == 0).to_string(),
+                "void" => "nil".into(),
+                _ => format!("\"{}\"", ["a", "b", ""][i % 3]),
+            }
+        };
+        let elem_out = |ty: &str, i: usize| -> String {
+            match ty {
+                "int" => (i % 7).to_string(),
+                "bool" => (i % 2 == 0).to_string(),
+                "void" => "nil".into(),
+                _ => ["a", "b", ""][i % 3].to_string(),
+            }
+        };
+        let shapes: Vec<(&str, usize)> = if quick {
+            vec![("int", 65540), ("void", 65536)]
+        } else {
+            let mut v = vec![];
+            for ty in ["int", "bool", "void", "string"] {
+                for n in [65535usize, 65536, 65537, 65540] {
+                    v.push((ty, n));
+                }
+            }
+            v
+        };
+        let mut big: Vec<(String, String, String)> = vec![]; // request, program, oracle
+        for (ty, n) in shapes {
+            let idxs: Vec<usize> = vec![0, 1, 65533, 65534, n - 1];
+            let mut src = format!("let a: array<{ty}> = [");
+            for i in 0..n {
+                if i > 0 { src.push_str(", "); }
+                src.push_str(&elem_src(ty, i));
+            }
+            src.push_str("]\nprint(a.len())\nprint(\";\")\n");
+            let mut want = format!("{n};");
+            for (k, i) in idxs.iter().enumerate() {
+                if k > 0 { src.push_str("print(\",\")\n"); want.push(','); }
+                src.push_str(&format!("print(a[{i}])\n"));
+                want.push_str(&elem_out(ty, *i));
+            }
+            src.push_str(&format!("print(\";\")\na.push({})\nprint(a.len())\nprint(\";\")\nprint(a.pop())\nprint(\";\")\nprint(a[{}])\n", elem_src(ty, n), n + 5));
+            want.push_str(&format!(";{};{};ERR:oob", n + 1, elem_out(ty, n)));
+            let req = format!("arr big {ty} {n} {}", idxs.iter().map(|i| i.to_string()).collect::<Vec<_>>().join(" "));
+            big.push((req, src, want));
+        }
+        let srcs: Vec<&String> = big.iter().map(|b| &b.1).collect();
+        let results = par_map(&srcs, |src| run_program_opts(src, &RunOpts { max_steps: 50_000_000, ..Default::default() }));
+        for ((req, _, want), r) in big.iter().zip(results) {
+            let imp = match &r.outcome {
+                Outcome::Done => r.out.clone(),
+                Outcome::Error(k) => format!("{}ERR:{}", r.out, k),
+                Outcome::Rejected(m) => format!("REJECTED {}", m.lines().filter(|l| !l.trim().is_empty()).take(2).collect::<Vec<_>>().join(" ")),
+                o => format!("{}{}", r.out, o.tag().to_uppercase()),
+            }
+            .replace(['\n', '\t'], " ");
+            ctx.count("stream:literal-longer-than-65535");
+            if imp != *want {
+                ctx.spec_fail(format!("long array literal differs from the list model: `{req}`: implementation `{imp}`, list model `{want}`"));
+            }
+            ctx.case(req.clone(), imp);
+        }
+    }
+
     ctx.finish();
 }
